@@ -48,6 +48,19 @@ func (r *Rng) Bytes(n int) []byte {
 }
 func (r *Rng) Pick(xs ...int) int { return xs[r.Intn(len(xs))] }
 
+// Perm returns a permutation of 0..n-1 (Fisher-Yates from this generator's state)
+func (r *Rng) Perm(n int) []int {
+	p := make([]int, n)
+	for i := range p {
+		p[i] = i
+	}
+	for i := n - 1; i > 0; i-- {
+		j := r.Intn(i + 1)
+		p[i], p[j] = p[j], p[i]
+	}
+	return p
+}
+
 // Fork derives an independent stream (so adding a generator does not shift the others).
 func (r *Rng) Fork(tag string) *Rng {
 	h := sha256.Sum256([]byte(fmt.Sprintf("%d/%s", r.s, tag)))
